@@ -17,3 +17,16 @@ Theorem C08_gz_member_by_member : forall m rest, member_ok m ->
   gz_read false (member_bytes m ++ rest) = mkgres (snd m) CEOF rest [fst (fst m)] false.
 Proof. exact (gz_member_by_member inflate_mono). Qed.
 Print Assumptions C08_gz_member_by_member.
+
+(* ---- on the faithful model of the gzip reader (RModel/GzEngine.v): in the default mode the Reads hand
+   out the concatenated payloads of all members (C06_gz_reader_sound with multi = true: the payload
+   of Containers.gz_read true); member by member -- Multistream(false), Reads to io.EOF, Reset onto the
+   SAME bufio.Reader, Multistream(false) -- the second phase reads exactly the member that follows,
+   and the buffer is left at the first byte after it; no byte beyond a trailer is consumed. *)
+From Verif Require Import Engine EngineCorollaries GzEngine GzEngineSpec GzEngineSpec2 GzEngineTop.
+Theorem C08_gz_reader_walk : gz_walk_statement.
+Proof. exact gz_walk. Qed.
+Print Assumptions C08_gz_reader_walk.
+Theorem C08_gz_reader_consumed : gz_consumed_statement.
+Proof. exact gz_consumed. Qed.
+Print Assumptions C08_gz_reader_consumed.
